@@ -6,7 +6,7 @@ CONSTANTS
   CloseOn = "wg"
   CtxGen = FALSE
   ContinueOnCtx = FALSE
-  LoopChecksCtx = TRUE
+  LoopChecksCtx = FALSE
 INVARIANTS TypeOK Conservation CloseAfterDrain EofComplete NoStall AllDone BlockedConsumerReleased NoopCloseStartsNothing
 PROPERTIES Terminates
 CHECK_DEADLOCK FALSE
